@@ -237,6 +237,15 @@ Definition holds (c : case) : bool :=
                                                 (* ... and they are what was put in *)
         | _ => false
         end
+      else if wf_copyright_weak (map shop_of hops) sps then
+        (* license lines that are whitespace-only or a lone '.' read back as empty lines, but the
+           document survives: same values before and after, identical second dump, and the
+           paragraph kinds in the expected order *)
+        match obs with
+        | ODone d1 v1 None =>
+            list_eqb Bool.eqb (map ov_files (tl v1)) (map is_pfiles (expected_order sps))
+        | _ => false
+        end
       else true
   | KParseDoc _ _ _ _ => true
   end.
@@ -253,7 +262,7 @@ Definition in_domain (c : case) : bool :=
   | KSS l _ _ => ss_dom (dstrs l)
   | KLB l _ _ => lb_dom (dstrs l)
   | KSSFrom _ _ _ _ | KLBFrom _ _ _ _ => true
-  | KDoc hops specs _ _ _ => wf_copyright (map shop_of hops) (map spara_of specs)
+  | KDoc hops specs _ _ _ => wf_copyright_weak (map shop_of hops) (map spara_of specs)
   | KParse _ _ | KLicFrom _ _ | KParseDoc _ _ _ _ => false
   end.
 Definition count_in_domain (cs : list case) : N := N.of_nat (List.length (filter in_domain cs)).
